@@ -194,6 +194,10 @@ class SymVal:
         if self.kind == "uint" and isinstance(other, int) and other > 0 and other & (other - 1) == 0 \
                 and other < (1 << self.width):
             return SymVal(self.var, "bit", 1, self.width - other.bit_length())
+        if self.kind == "uint" and isinstance(other, int):
+            # masks such as num & ((1 << 63) - 1) (uint64_to_int64): a value derived from a loaded field; kept as
+            # "derived" (dropped from the object, never compared), control flow on it is refused
+            return SymDerived("arith", self)
         raise Unsupported("bitwise and of a symbolic value with a non-single-bit constant")
 
     __rand__ = __and__
@@ -252,6 +256,36 @@ class SymStrMarker(str):
         return o
 
 
+class SymTagMarker(str):
+    """str(symbolic tag string): python demands a real str; carry the symbolic bits along"""
+
+    def __new__(cls, bits):
+        o = str.__new__(cls, "<tag>")
+        o.bits = bits
+        return o
+
+
+class SymBin:
+    """bin(x) of a symbolic unsigned integer: only its last character (the lowest bit) may be inspected"""
+
+    def __init__(self, v):
+        self.v = v
+
+    def __getitem__(self, i):
+        if i == -1:
+            return SymBitStr([(self.v, self.v.width - 1)])
+        raise Unsupported("bin() of a symbolic integer inspected elsewhere than at [-1]")
+
+
+def sym_bin(x):
+    import builtins
+    if isinstance(x, SymVal):
+        if x.kind != "uint":
+            raise Unsupported(f"bin() of symbolic {x.kind}")
+        return SymBin(x)
+    return builtins.bin(x)
+
+
 class SymBitStr:
     """a '0101' string whose characters are symbolic bits (tag strings)"""
 
@@ -279,6 +313,8 @@ class SymBitStr:
     def __add__(self, other):
         if isinstance(other, SymStrMarker):
             return SymBitStr(self.bits + [(other.sym, other.sym.bitindex)])
+        if isinstance(other, SymTagMarker):
+            return SymBitStr(self.bits + other.bits)
         if isinstance(other, SymBitStr):
             return SymBitStr(self.bits + other.bits)
         raise Unsupported("tag string concatenated with a constant")
@@ -286,7 +322,7 @@ class SymBitStr:
     __iadd__ = __add__
 
     def __str__(self):
-        return "<tag>"
+        return SymTagMarker(self.bits)     # str(bits.to01()) used to extend a tag string
 
     def __format__(self, spec):
         return "<tag>"
@@ -303,6 +339,11 @@ class SymDerived:
 
     def __bool__(self):
         raise Unsupported("control flow on a derived value")
+
+    def _arith(self, other):
+        return SymDerived("arith", self)
+
+    __add__ = __radd__ = __sub__ = __rsub__ = __mul__ = __and__ = __rand__ = __or__ = _arith
 
 
 class SymSlice:
@@ -604,6 +645,10 @@ def trace_all(only=None):
         d, func, is_cm = originals[name]
         if is_cm:
             setattr(cls, "deserialize", make_stub(name, func, current))
+    # bin(flags)[-1] == '1' (BlockInfo, McStateExtra): the traced modules see a bin() that understands symbolic integers
+    patched_mods = [importlib.import_module(m) for m in MODULES]
+    for mod in patched_mods:
+        mod.__dict__["bin"] = sym_bin
     result, failed = {}, {}
     deferred = []
     try:
@@ -644,6 +689,8 @@ def trace_all(only=None):
     finally:
         for name, cls in classes.items():
             setattr(cls, "deserialize", originals[name][0])
+        for mod in patched_mods:
+            mod.__dict__.pop("bin", None)
     return result, failed
 
 
